@@ -15,11 +15,15 @@ pub enum Op {
     PrependIn,
     InsertIn(u16),
     SetIn(u16),
+    /// replace an input by a copy of itself with one field changed: 0 sequence, 1 vout, 2 one txid byte, 3 unlocking script
+    TweakIn(u16, u8),
     AddIns(u8),
     AddOut,
     PrependOut,
     InsertOut(u16),
     SetOut(u16),
+    /// replace an output by a copy of itself with one field changed: 0 value, 1 script
+    TweakOut(u16, u8),
     AddOuts(u8),
     SetVersion(u32),
     SetLocktime(u32),
@@ -134,6 +138,37 @@ pub fn run_history(c: &Case, o: &mut Outcome) -> Result<(), Failure> {
                 let i = gen::pick(*p, nin);
                 lib_call("set_input", || tx.set_input(i, &fresh_in(&mut counter)))?
             }
+            Op::TweakIn(p, what) => {
+                let i = gen::pick(*p, nin);
+                let mut x = tx.get_input(i).ok_or_else(|| failure("get_input", "None", "Some"))?;
+                counter += 1;
+                match what % 4 {
+                    0 => x.set_sequence(x.get_sequence() ^ (1 << (counter % 32))),
+                    1 => x.set_vout(x.get_vout().wrapping_add(counter)),
+                    2 => {
+                        let mut id = x.get_prev_tx_id(None);
+                        let k = (counter as usize) % id.len().max(1);
+                        if !id.is_empty() {
+                            id[k] ^= 0x01;
+                        }
+                        x.set_prev_tx_id(&id);
+                    }
+                    _ => x.set_unlocking_script(&Script::from_bytes(&[0x01, counter as u8, 0x52]).expect("script")),
+                }
+                lib_call("set_input", || tx.set_input(i, &x))?
+            }
+            Op::TweakOut(p, what) => {
+                if nout > 0 {
+                    let i = gen::pick(*p, nout);
+                    let x = tx.get_output(i).ok_or_else(|| failure("get_output", "None", "Some"))?;
+                    counter += 1;
+                    let y = match what % 2 {
+                        0 => TxOut::new(x.get_satoshis() ^ (1 << (counter % 64)), &x.get_script_pub_key()),
+                        _ => TxOut::new(x.get_satoshis(), &Script::from_bytes(&[0x01, counter as u8, 0x53]).expect("script")),
+                    };
+                    lib_call("set_output", || tx.set_output(i, &y))?
+                }
+            }
             Op::AddIns(n) => {
                 let v: Vec<TxIn> = (0..(*n % 3) + 1).map(|_| fresh_in(&mut counter)).collect();
                 lib_call("add_inputs", || tx.add_inputs(v))?
@@ -207,14 +242,14 @@ pub fn run_history(c: &Case, o: &mut Outcome) -> Result<(), Failure> {
                     }
                 }
             }
-            Op::AddIn | Op::PrependIn | Op::InsertIn(_) | Op::SetIn(_) | Op::AddIns(_) => {
+            Op::AddIn | Op::PrependIn | Op::InsertIn(_) | Op::SetIn(_) | Op::TweakIn(..) | Op::AddIns(_) => {
                 for s in 0..2 {
                     if filled[s] {
                         stale[s] = true;
                     }
                 }
             }
-            Op::AddOut | Op::PrependOut | Op::InsertOut(_) | Op::SetOut(_) | Op::AddOuts(_) => {
+            Op::AddOut | Op::PrependOut | Op::InsertOut(_) | Op::SetOut(_) | Op::TweakOut(..) | Op::AddOuts(_) => {
                 if filled[2] {
                     stale[2] = true;
                 }
@@ -226,21 +261,25 @@ pub fn run_history(c: &Case, o: &mut Outcome) -> Result<(), Failure> {
     o.nt_if(nontrivial, "fill-mutate-reread");
     o.label_if(c.ops.iter().any(|x| matches!(x, Op::Clone | Op::AdoptSetterResult)), "clone");
     o.label_if(c.ops.iter().any(|x| matches!(x, Op::SetIn(_) | Op::SetOut(_))), "replace-mutator");
+    o.label_if(c.ops.iter().any(|x| matches!(x, Op::TweakIn(..) | Op::TweakOut(..))), "single-field-replacement");
     o.label_if(c.ops.iter().any(|x| matches!(x, Op::Sign { .. })), "sign");
     Ok(())
 }
 
-/// the 14-letter alphabet of the bounded-exhaustive enumeration
+/// the 17-letter alphabet of the bounded-exhaustive enumeration
 pub fn alphabet() -> Vec<Op> {
     vec![
         Op::AddIn,
         Op::PrependIn,
         Op::InsertIn(0x8000),
         Op::SetIn(0),
+        Op::TweakIn(0, 0),
+        Op::TweakIn(0xffff, 1),
         Op::AddOut,
         Op::PrependOut,
         Op::InsertOut(0x8000),
         Op::SetOut(0xffff),
+        Op::TweakOut(0, 0),
         Op::SetVersion(7),
         Op::SetLocktime(9),
         Op::Clone,
@@ -257,6 +296,8 @@ fn op() -> impl Strategy<Value = Op> {
         2 => Just(Op::PrependIn),
         2 => any::<u16>().prop_map(Op::InsertIn),
         3 => any::<u16>().prop_map(Op::SetIn),
+        4 => (any::<u16>(), 0u8..4).prop_map(|(p, w)| Op::TweakIn(p, w)),
+        3 => (any::<u16>(), 0u8..2).prop_map(|(p, w)| Op::TweakOut(p, w)),
         1 => any::<u8>().prop_map(Op::AddIns),
         2 => Just(Op::AddOut),
         2 => Just(Op::PrependOut),
@@ -277,7 +318,7 @@ impl Property for C04 {
     const ID: &'static str = "C04";
 
     fn rule() -> String {
-        "Model-based histories over the transaction mutation API (add/prepend/insert/set input and output, add_inputs/add_outputs, set_version, set_nlocktime, clone, adopting the clone a setter returns) interleaved with sighash_preimage and sign calls of all fourteen flag values; every inserted element is fresh so a stale hash differs. Bounded-exhaustive: every sequence of length <= 4 (quick) / <= 5 (thorough) over a 14-letter alphabet (8 mutators, set_version, set_nlocktime, clone, one sighash per cache-filling class 0x41/0xc1/0x42) from a 2-in/2-out start; plus random histories of length <= 60. Oracle: after every step, on a clone, sighash_preimage for each of the fourteen flags and each input index equals the result on Transaction::from_bytes(tx.to_bytes()) (same bytes or both Err); the history's own sighash/sign results are compared the same way. Non-trivial = the history fills a cache slot, later mutates the hashed part, later reads that slot again; distinct by hash of the serialised history.".into()
+        "Model-based histories over the transaction mutation API (add/prepend/insert/set input and output, add_inputs/add_outputs, set_version, set_nlocktime, clone, adopting the clone a setter returns) interleaved with sighash_preimage and sign calls of all fourteen flag values; every inserted element is fresh so a stale hash differs. Bounded-exhaustive: every sequence of length <= 4 (quick) / <= 5 (thorough) over a 17-letter alphabet (8 whole-element mutators, 3 single-field replacements through set_input/set_output — same outpoint with another sequence, same txid with another vout, same script with another value —, set_version, set_nlocktime, clone, one sighash per cache-filling class 0x41/0xc1/0x42) from a 2-in/2-out start; plus random histories of length <= 60. Oracle: after every step, on a clone, sighash_preimage for each of the fourteen flags and each input index equals the result on Transaction::from_bytes(tx.to_bytes()) (same bytes or both Err); the history's own sighash/sign results are compared the same way. Non-trivial = the history fills a cache slot, later mutates the hashed part, later reads that slot again; distinct by hash of the serialised history.".into()
     }
 
     fn assumptions() -> Vec<String> {
@@ -289,7 +330,7 @@ impl Property for C04 {
     }
 
     fn exhaustive_spaces(tier: Tier) -> Vec<String> {
-        vec![format!("all operation sequences of length <= {} over the 14-letter alphabet from a 2-input/2-output transaction", tier.pick(4, 5))]
+        vec![format!("all operation sequences of length <= {} over the 17-letter alphabet from a 2-input/2-output transaction", tier.pick(4, 5))]
     }
 
     fn exhaustive(tier: Tier, shard: usize, nshards: usize, f: &mut dyn FnMut(Case) -> bool) {
